@@ -136,6 +136,37 @@ def run(prog):
                 if ins.cfg.can_reach(hb, gb):
                     errs.append("the home slot `hash % cap` is computed before the table may grow: the request that triggers a "
                                 "growth probes the doubled table from a slot of the old capacity (node duplicated or lost)")
+    # the resident that gives up its slot restarts its walk *at that slot*: propagate finds the slot occupied (by the
+    # resident itself), adds one to its probe length and moves on, so that the length it is finally stored with is its
+    # distance from home.  Started one slot further, it is stored with a length one too small, and a later lookup of it
+    # stops early (stored.psl < walked distance) — the node is allocated a second time.
+    errs_d = []
+    props = [cs for cs in te_i.calls if cs.callee.name == "propagate"]
+    slot_stores = [(bb, strip(pt)) for (bb, pt, val, _) in te_i.stores if mir.is_call(strip(pt), "index_mut") and show(strip(pt)[2][0]).endswith(".tbl")]
+    if not props or not slot_stores:
+        errs_d.append("?no displacement (propagate) or slot write found in %s" % ins.name)
+    for cs in props:
+        start = strip(cs.args[-1])
+        later = [pt for bb, pt in slot_stores if bb in ins.cfg.reachable_from(cs.bb)]
+        if not later:
+            errs_d.append("?no slot write after the displacement")
+            continue
+        slot = strip(later[0][2][1])
+        if start == slot:
+            continue
+        el = strip(cs.args[-2]) if len(cs.args) >= 2 else None
+        while el is not None and (mir.is_call(el, "clone") or (isinstance(el, tuple) and el and el[0] in ("ref", "deref"))):
+            el = strip(el[2][0]) if el[0] == "call" else strip(el[1])
+        unmodified = el is not None and mir.is_call(el, "index") and strip(el[2][1]) == slot
+        if unmodified and any(x == slot for x in mir.subterms(start)) and any(x[0] == "bin" and x[1].startswith("Add") for x in mir.subterms(start)):
+            errs_d.append("the displaced resident starts its walk at %s, past the slot %s it is evicted from: its probe length is "
+                          "not advanced for that step and it is stored with a length one too small; a later lookup of it gives up "
+                          "one slot early and the node is allocated again (two pointers for one function)" % (show(start)[:50], show(slot)[:20]))
+        else:
+            errs_d.append("?the displaced resident starts its walk at %s" % show(start)[:50])
+    from .base import verdict_of, errtext
+    out.append(inst("RH", "%s:displaced-from-own-slot" % ins.npath, verdict_of(errs_d), ins, None,
+                    errtext(errs_d) if errs_d else "the evicted resident is propagated from the slot the new entry takes"))
     out.append(inst("RH", "%s:home-after-grow" % ins.npath, VIOLATION if errs else OK, ins, None,
                     "; ".join(sorted(set(errs))) if errs else "home slot is computed after the growth check"))
     ok = fi["cmp"] == fg["cmp"] and fi["home"] == fg["home"] and fi["step"] == fg["step"]
@@ -181,6 +212,12 @@ def run(prog):
                                                                                or "next_power_of_two" in show(h[3]))
         if not ok:
             errs.append("grow re-homes at %s, not at hash %% cap" % show(h))
+        elif not any(x[0] == "field" and x[2] == "hash" for x in mir.subterms(h[2])) and \
+                any(x[0] == "call" and x[1].name in ("finish", "hash", "hash_one", "finish_u64") for x in mir.subterms(h[2])):
+            errs.append("grow re-homes an element at a hash it computes afresh (%s) instead of the hash stored in its slot: "
+                        "elements entered through get_or_insert_by_hash are filed under the caller's hash (the semantic hash of "
+                        "the node's function), which is not the element's own Hash — after one growth no lookup by that hash "
+                        "finds them, and every existing function is allocated a second time" % show(h[2])[:60])
         else:
             # the modulus must be the *new* capacity: it is read after the store to self.cap
             pass
